@@ -20,6 +20,9 @@ pub enum QuantOp {
     Forbid(Vec<u8>),
     /// forbid the pitch class of the note returned by the previous conversion (plus `extra`, listed first)
     ForbidLast(Vec<u8>),
+    /// one forbid call naming all twelve pitch classes (rotated by `rot`) with the class of the previously returned
+    /// note LAST: the would-empty rule must keep exactly that class allowed
+    ForbidAllLast(u8),
     Convert(f32),
     ConvertSame,
     ConvertNudge(f32),
@@ -220,9 +223,15 @@ pub fn run_case(case: &QuantCase, mask: u32, stats: &mut Stats) -> Result<CaseIn
                 prev_mono = None;
                 mono_armed = false;
             }
-            QuantOp::Forbid(_) | QuantOp::ForbidLast(_) => {
+            QuantOp::Forbid(_) | QuantOp::ForbidLast(_) | QuantOp::ForbidAllLast(_) => {
                 let mut resolved: Vec<u8> = match op {
                     QuantOp::Forbid(l) | QuantOp::ForbidLast(l) => l.clone(),
+                    QuantOp::ForbidAllLast(rot) => {
+                        let keep = last_note.unwrap_or(0) % 12;
+                        let mut l: Vec<u8> = (0..12u8).map(|i| (i + rot) % 12).filter(|n| *n != keep).collect();
+                        l.push(keep);
+                        l
+                    }
                     _ => vec![],
                 };
                 if let QuantOp::ForbidLast(_) = op {
